@@ -1,7 +1,8 @@
 /-
 Model of the read accessors of point and model isotherms (core/pointisotherm.py `data`, `pressure`, `loading`,
-`pressure_at`, `loading_at`; core/modelisotherm.py `pressure_at`, `loading_at`; utilities `split_ads_data`,
-`get_iso_loading_and_pressure_ordered`).  Unit plumbing is expressed with `Model/Units.lean`; interpolation with
+`other_data`, `has_branch`, `pressure_at`, `loading_at`; core/modelisotherm.py `pressure`, `loading`, `has_branch`,
+`pressure_at`, `loading_at`; utilities `split_ads_data`, `find_limit_indices`, `get_iso_loading_and_pressure_ordered`;
+core/baseisotherm.py `temperature` (the kelvin temperature every accessor hands to the unit conversions)).  Unit plumbing is expressed with `Model/Units.lean`; interpolation with
 `interpLin` of `Model/SpreadPoint.lean`.  Polymorphic over an ordered field; executed at ℚ by the driver.
 -/
 import PgVerif.Model.IsoState
@@ -124,5 +125,158 @@ def splitAds (ps : List α) : List Nat :=
 /-- `get_iso_loading_and_pressure_ordered`: desorption data are reversed (increasing pressure) -/
 def orderedForBranch {β : Type} (branch : String) (xs : List β) : List β :=
   if branch = "des" then xs.reverse else xs
+
+/-! ### whole accessors of a point isotherm: branch → conversion of every value → limits -/
+
+/-- the common shape of `PointIsotherm.pressure / loading / other_data`: rows of the branch (stored order), every value
+through the accessor's conversion `acc`, then the limits — which therefore are in the REQUESTED representation.
+(`if not ret.empty` needs no case: on an empty selection `mapM` converts nothing and the limits select nothing.) -/
+def column (acc : α → Except Err α) (rows : List (α × Nat)) (branch : Option String)
+    (limits : Option (Option α × Option α)) : Except Err (List α) := do
+  let vs ← dataBranch rows branch
+  let ws ← vs.mapM acc
+  pure (applyLimits ws limits)
+
+/-- `PointIsotherm.pressure(branch, pressure_mode, pressure_unit, limits)` -/
+def pressureColumn (c : Ctx α) (lab : Labels) (rows : List (α × Nat)) (branch pm pu : Option String)
+    (limits : Option (Option α × Option α)) : Except Err (List α) :=
+  column (fun v => accessPressure c lab v pm pu) rows branch limits
+
+/-- `PointIsotherm.loading(branch, loading_basis, loading_unit, material_basis, material_unit, limits)` -/
+def loadingColumn (c : Ctx α) (lab : Labels) (rows : List (α × Nat)) (branch lb lu mb mu : Option String)
+    (limits : Option (Option α × Option α)) : Except Err (List α) :=
+  column (fun v => accessLoadingTarget c lab v lb lu mb mu) rows branch limits
+
+/-- `PointIsotherm.other_data(key, branch, limits)`: `known` = the key names a supplementary column -/
+def otherColumn (known : Bool) (rows : List (α × Nat)) (branch : Option String)
+    (limits : Option (Option α × Option α)) : Except Err (List α) :=
+  if known then column (fun v => .ok v) rows branch limits else .error .param
+
+/-- `PointIsotherm.has_branch(branch)`: some stored row carries the mark -/
+def hasBranch (marks : List Nat) (branch : Option String) : Except Err Bool :=
+  (dataBranch (marks.map fun m => ((), m)) branch).map fun l => !l.isEmpty
+
+/-- what a characterisation routine reads (`get_iso_loading_and_pressure_ordered`): both whole-branch accessors in the
+requested units; the desorption branch reversed -/
+def orderedRead (c : Ctx α) (lab : Labels) (prow lrow : List (α × Nat)) (branch : String)
+    (pm pu lb lu mb mu : Option String) : Except Err (List α × List α) := do
+  let l ← loadingColumn c lab lrow (some branch) lb lu mb mu none
+  let p ← pressureColumn c lab prow (some branch) pm pu none
+  pure (orderedForBranch branch p, orderedForBranch branch l)
+
+/-! ### whole accessors of a model isotherm -/
+
+/-- `ret[(lo < ret) & (ret < hi)]` under `limits and any(limits)`: model isotherms slice with STRICT bounds -/
+def applyLimitsStrict (vs : List α) (limits : Option (Option α × Option α)) : List α :=
+  match limits with
+  | none => vs
+  | some (lo, hi) =>
+    let anyT := (match lo with | some x => x ≠ 0 | none => false) || (match hi with | some x => x ≠ 0 | none => false)
+    if !anyT then vs
+    else vs.filter fun v => (match lo with | some x => x < v | none => true) && (match hi with | some x => v < x | none => true)
+
+/-- `numpy.linspace(a, b, n)` -/
+def linspace (a b : α) (n : Nat) : List α :=
+  (List.range n).map fun (i : Nat) => a + (b - a) * ((i : Nat) : α) / (((n : Nat) : α) - 1)
+
+/-- the branch guard of the model-isotherm accessors: `if branch and branch != self.branch` (`pressure()` also lets
+`'all'` pass) -/
+def modelBranchOk (own : String) (allowAll : Bool) (branch : Option String) : Bool :=
+  !truthy branch || branch = some own || (allowAll && branch = some "all")
+
+/-- `ModelIsotherm.has_branch(branch)` -/
+def modelHasBranch (own : String) (branch : Option String) : Bool := branch = some own
+
+/-- `ModelIsotherm.pressure(points, branch, pressure_mode, pressure_unit, limits)` of a model that calculates loading:
+equidistant points of the model's pressure range, re-expressed, strictly inside the limits -/
+def modelPressureColumn (c : Ctx α) (lab : Labels) (own : String) (lo hi : α) (n : Nat) (branch pm pu : Option String)
+    (limits : Option (Option α × Option α)) : Except Err (List α) :=
+  if !modelBranchOk own true branch then .error .param
+  else do
+    let ws ← (linspace lo hi n).mapM fun v => outputPressureModel c lab v pm pu
+    pure (applyLimitsStrict ws limits)
+
+/-- `ModelIsotherm.loading(points, branch, loading_basis, …, limits)` of a model that calculates loading:
+`loading_at(pressure(points), …)`, i.e. the bare model `m` on the native points, re-expressed, strictly inside the limits -/
+def modelLoadingColumn (c : Ctx α) (lab : Labels) (own : String) (m : α → α) (lo hi : α) (n : Nat)
+    (branch lb lu mb mu : Option String) (limits : Option (Option α × Option α)) : Except Err (List α) :=
+  if !modelBranchOk own false branch then .error .param
+  else do
+    let ws ← (linspace lo hi n).mapM fun v => accessLoadingTarget c lab (m v) lb lu mb mu
+    pure (applyLimitsStrict ws limits)
+
+/-! ### interpolated / model-evaluated values at a point: input conversion → evaluation → output conversion -/
+
+/-- `PointIsotherm.loading_at(pressure, pressure_mode, pressure_unit, loading_basis, …)` on the knots `ps`, `ls` of the
+branch (increasing pressures), linear kind, no fill rule: outside the measured range is a `ValueError` -/
+def pointLoadingAt (c : Ctx α) (lab : Labels) (ps ls : List α) (q : α) (pm pu lb lu mb mu : Option String) : Except Err α := do
+  let p ← inputPressure c lab q pm pu
+  match interpLin ps ls p with
+  | none => .error .value
+  | some l => accessLoadingStored c lab l lb lu mb mu
+
+/-- `PointIsotherm.pressure_at(loading, loading_basis, …, pressure_mode, pressure_unit)` on the knots `ls`, `ps`
+(increasing loadings) -/
+def pointPressureAt (c : Ctx α) (lab : Labels) (ls ps : List α) (q : α) (lb lu mb mu pm pu : Option String) : Except Err α := do
+  let l ← inputLoading false c lab q lb lu mb mu
+  match interpLin ls ps l with
+  | none => .error .value
+  | some p => outputPressurePoint c lab p pm pu
+
+/-- `ModelIsotherm.loading_at` around the bare model `m` -/
+def modelLoadingAt (c : Ctx α) (lab : Labels) (m : α → α) (q : α) (pm pu lb lu mb mu : Option String) : Except Err α := do
+  let p ← inputPressure c lab q pm pu
+  accessLoadingTarget c lab (m p) lb lu mb mu
+
+/-- `ModelIsotherm.pressure_at` around the bare inverse `mi` -/
+def modelPressureAt (c : Ctx α) (lab : Labels) (mi : α → α) (q : α) (lb lu mb mu pm pu : Option String) : Except Err α := do
+  let l ← inputLoading true c lab q lb lu mb mu
+  outputPressureModel c lab (mi l) pm pu
+
+/-! ### `find_limit_indices` -/
+
+/-- `numpy.searchsorted(array, a)` on an increasing array: the number of elements `< a` -/
+def searchLeft (xs : List α) (a : α) : Nat := (xs.filter (· < a)).length
+
+/-- `find_limit_indices(array, limits, smallest_selection)`: positions of the first and last element kept;
+a limit that is `None` or `0` is inactive; too small a selection is a `CalculationError` -/
+def findLimitIndices (xs : List α) (limits : Option (Option α × Option α)) (smallest : Int) : Except Err (Int × Int) :=
+  let lo := (limits.getD (none, none)).1
+  let hi := (limits.getD (none, none)).2
+  let imin : Int := match lo with | some a => if a ≠ 0 then (searchLeft xs a : Int) else 0 | none => 0
+  let imax : Int := match hi with | some b => if b ≠ 0 then (searchLeft xs b : Int) - 1 else (xs.length : Int) - 1
+                                  | none => (xs.length : Int) - 1
+  if imax - imin < smallest then .error .calc else .ok (imin, imax)
+
+/-! ### the temperature seen by the accessors -/
+
+/-- `BaseIsotherm.temperature` (a property): the stored temperature in kelvin, whatever `temperature_unit` is -/
+def kelvin (tunit : Option String) (t : α) : Except Err α :=
+  if tunit = some "K" then .ok t else cTemperature t tunit (some "K")
+
+/-- the adsorbate (and material) as functions of the temperature IN KELVIN: saturation pressure and the densities
+used by the loading conversions -/
+structure Thermo (α : Type) where
+  psat : α → Option α
+  env : α → Env α
+
+/-- the constants an accessor works with: those at `self.temperature` (kelvin), never at the raw stored number -/
+def Thermo.ctx (th : Thermo α) (tunit : Option String) (t : α) : Except Err (Ctx α) :=
+  match kelvin tunit t with
+  | .error e => .error e
+  | .ok T => .ok ⟨th.psat T, th.env T, decide (T ≠ 0)⟩
+
+/-- an accessor of a point isotherm in state `s` (labels, data AND stored temperature with its unit) -/
+def accessPressureAt (th : Thermo α) (s : Iso α) (v : α) (pm pu : Option String) : Except Err α :=
+  if truthy pm || truthy pu then
+    match th.ctx s.lab.tunit s.temp with
+    | .error _ => .error .calc            -- evaluated inside the `try` of `pressure()`
+    | .ok c => accessPressure c s.lab v pm pu
+  else .ok v
+
+def accessLoadingAt (th : Thermo α) (s : Iso α) (v : α) (lb lu mb mu : Option String) : Except Err α :=
+  match th.ctx s.lab.tunit s.temp with
+  | .error e => .error e
+  | .ok c => accessLoadingTarget c s.lab v lb lu mb mu
 
 end PgVerif.Model
